@@ -92,12 +92,12 @@ def cases(tier, rng):
     # a subscriber that does not take anything for a while and then drains: what comes out is what fitted below the write
     # mark plus one message - the rest was dropped whole, not kept
     for sock in ("PUB", "XPUB"):
-        for size, n in ((70000, 6), (20000, 12), (132000, 3), (1000, 200)):
+        for size, n in ((70000, 6), (20000, 12), (132000, 3), (1000, 200), (1000, 1800), (100, 4000)):
             sub = W.tok(W.msg([b"\x01"]))
             after = ["settle"] if sock == "PUB" else ["recv"]
             ops = ["attach a SUB", "attach b SUB", "feed a " + sub] + after + ["feed b " + sub] + after + ["wmode a stall"]
             ops += ["send r%d.%02x" % (size, 0x41 + (i % 20)) for i in range(n)]
-            ops += ["wire b", "wmode a all", "send 7a", "wire a"]
+            ops += ["wire b", "wmode a all", "send 7a", "wire a", "send 7931", "send 7932", "wire a", "dropped a"]
             out.append("h%d.%d.%d sock %s / %s" % (k, size, n, sock, " / ".join(ops)))
             k += 1
     out += fan_cases(tier, rng, k)
@@ -260,6 +260,14 @@ def judge(line, obs, orc):
             kept += 1
         if got != kept * one + 3 and got != kept * one:
             return "the drained stream of the stalled subscriber is not a sequence of whole messages (%d octets, message size %d)" % (got, one)
+        # it is a subscriber like any other again: what is published now reaches it, and its connection is still held
+        wa2 = [tk for op, tk in po if op[0] == "wire" and op[1] == "a"][1].split("=", 1)[1]
+        if wa2 != (W.msg([b"y1"]) + W.msg([b"y2"])).hex():
+            return ("a subscriber that was slow for %d publishes and then accepts every write again does not get what is published "
+                    "afterwards: %s" % (n, wa2[:60]))
+        da = [tk for op, tk in po if op[0] == "dropped" and op[1] == "a"][0]
+        if "w" in da.split("=", 1)[1]:
+            return "the publisher closed the connection of a subscriber that had merely been slow: " + da
         return None
     if sp[0].startswith("g"):
         t, po = S.pair_ops_obs(line, obs)
